@@ -274,6 +274,10 @@ impl World {
             // C09: take() "frees the slot", retain() "does not reduce the
             // pool's capacity" - also in histories with a resize
             let mut v = vec!["C07"];
+            // C02 is quantified over "all finite histories of pool operations"
+            if self.base.contains(&"C02") {
+                v.push("C02");
+            }
             if self.takes_retains > 0 && self.base.contains(&"C09") {
                 v.push("C09");
             }
